@@ -333,6 +333,11 @@ func (p *player) Bet(chips int64) error {
 		return ErrInvalidAction
 	}
 
+	// A negative amount would take chips back out of the pot
+	if chips < 0 {
+		return ErrInvalidAction
+	}
+
 	//fmt.Printf("[Player %d] bet %d\n", p.idx, chips)
 
 	p.state.DidAction = "bet"
